@@ -81,8 +81,8 @@ impl Unit {
             Unit::Element { loc, attrs, .. } => {
                 *loc = (0, 0);
                 for a in attrs {
-                    a.name_loc = a.name_loc.map(|_| (0, 0));
-                    a.value_loc = a.value_loc.map(|_| (0, 0));
+                    a.name_loc = None;
+                    a.value_loc = None;
                 }
             }
             Unit::EndTag { loc, .. }
